@@ -24,7 +24,9 @@ Init0(f) ==
   ELSE IF f = "resnetwork" THEN [R |-> 1]
   ELSE IF f \in {"rp", "rn"} THEN [MODE |-> "threshold", P |-> 1]
   ELSE IF f \in {"crp", "jrp", "jrn"} THEN [MODE |-> "threshold", P |-> 1]
-  ELSE IF f \in {"climate", "ccn", "escn", "ctsonis"} THEN [MODE |-> "threshold", P |-> 1, NL |-> 0]
+  \* (a coupled climate network is also an InteractingNetworks object: it may carry a link attribute)
+  ELSE IF f = "ccn" THEN [MODE |-> "threshold", P |-> 1, NL |-> 0, LA |-> 0]
+  ELSE IF f \in {"climate", "escn", "ctsonis"} THEN [MODE |-> "threshold", P |-> 1, NL |-> 0]
   ELSE IF f \in {"tsonis", "spearman", "partialcorr", "mutualinfo"} THEN [MODE |-> "threshold", P |-> 1, NL |-> 0, WO |-> 0]
   ELSE IF f = "havlin" THEN [MODE |-> "threshold", P |-> 1, NL |-> 0, MD |-> 1]
   ELSE IF f = "hilbert" THEN [MODE |-> "threshold", P |-> 1, NL |-> 0, DIR |-> 1]
@@ -70,7 +72,8 @@ Alphabet(f) ==
   ELSE IF f = "isrn" THEN RpMut \cup {<<"set_fixed_threshold", 3>>, <<"set_fixed_threshold", 4>>,
                                       <<"set_fixed_recurrence_rate", 3>>, <<"set_fixed_recurrence_rate", 4>>}
   \* two-layer and event-based climate networks: the similarity-network mutators
-  ELSE IF f \in {"ccn", "escn", "ctsonis"} THEN ClimMut
+  ELSE IF f = "ccn" THEN ClimMut \cup {<<"set_link_attribute", 1>>, <<"set_link_attribute", 2>>, <<"del_link_attribute", 0>>}
+  ELSE IF f \in {"escn", "ctsonis"} THEN ClimMut
   \* data-driven climate networks: the similarity itself is recomputed by set_winter_only / set_directed
   ELSE IF f \in {"tsonis", "spearman", "partialcorr", "mutualinfo"}
        THEN ClimMut \cup {<<"set_winter_only", 0>>, <<"set_winter_only", 1>>}
@@ -84,6 +87,7 @@ Alphabet(f) ==
   \* abstract state; the one state change is the in-place normalisation of the stored data
   ELSE {<<"normalize_original_data", 0>>}
 
+NoLA(a) == IF "LA" \in DOMAIN a THEN [a EXCEPT !.LA = 0] ELSE a
 Kept(mode) == IF mode = "link_density" \/ mode = "kept_threshold" THEN "kept_threshold" ELSE mode
 Observable(a) == ~("MODE" \in DOMAIN a /\ a.MODE = "kept_threshold")
 Apply(f, a, m) ==
@@ -100,9 +104,10 @@ Apply(f, a, m) ==
   ELSE IF name = "set_fixed_recurrence_rate" THEN [a EXCEPT !.MODE = "recurrence_rate", !.P = v]
   ELSE IF name = "set_fixed_local_recurrence_rate" THEN [a EXCEPT !.MODE = "local_recurrence_rate", !.P = v]
   ELSE IF name = "set_adaptive_neighborhood_size" THEN [a EXCEPT !.MODE = "adaptive_neighborhood_size", !.P = v]
-  ELSE IF name = "set_threshold" THEN [a EXCEPT !.MODE = "threshold", !.P = v]
-  ELSE IF name = "set_link_density" THEN [a EXCEPT !.MODE = "link_density", !.P = v]
-  ELSE IF name = "set_non_local" THEN [a EXCEPT !.NL = v]
+  \* (the similarity-network setters rebuild the graph: link attributes do not survive)
+  ELSE IF name = "set_threshold" THEN NoLA([a EXCEPT !.MODE = "threshold", !.P = v])
+  ELSE IF name = "set_link_density" THEN NoLA([a EXCEPT !.MODE = "link_density", !.P = v])
+  ELSE IF name = "set_non_local" THEN NoLA([a EXCEPT !.NL = v])
   \* data-driven climate networks keep their THRESHOLD when the similarity is recomputed: a network whose density
   \* was prescribed goes to the mode "kept_threshold" (the threshold derived from the OLD similarity stays), in
   \* which the abstract state does not determine the network - nothing is observed there (no fresh twin exists),
